@@ -37,6 +37,7 @@ type zzClient struct {
 	podErr     bool
 	node       *corev1.Node
 	podENI     *v1beta1.PodENI // nil: not found
+	podENIGets int
 	writes     []zzWrite
 	createErr  bool
 	writeErr   bool
@@ -57,6 +58,7 @@ func (c *zzClient) Get(ctx context.Context, key client.ObjectKey, obj client.Obj
 		*o = *c.node
 		return nil
 	case *v1beta1.PodENI:
+		c.podENIGets++
 		if c.podENI == nil {
 			return k8sErr.NewNotFound(schema.GroupResource{Resource: "podenis"}, key.Name)
 		}
